@@ -1,1 +1,3 @@
-//! Hooks for property C18 (empty unless needed).
+//! Hooks for property C18: wrappers for the crate-private address maps and the
+//! classification function (defined in `socket/mapped_addrs.rs`, next to the seams in `generate`).
+pub use crate::socket::mapped_addrs::verif_c18::{Kind, Maps, classify};
